@@ -99,8 +99,9 @@ theorem C03_int_double_exact (x : Dbl) (hx : x.Valid) (v : Int) (h : x.toInt? = 
     (Dbl.ofInt v).normZero = x.normZero :=
   ofInt_toInt x hx v h
 
-/-- one number, text vs binary: under the (tested, not proved) hypothesis that `strtod (g_fmt x)` is `x` up to the sign of
-    zero, the value reported for a constant written in text equals the one reported for binary, up to the sign of zero -/
+/-- one number, text vs binary: under the hypothesis that `strtod (g_fmt x)` is `x` up to the sign of zero (tested, not
+    proved — and known to FAIL for the real `g_fmt` on doubles whose upper rounding boundary is a short decimal, open
+    finding `codec:boundary-tie-round-trip`, e.g. 4611686018999999488), the value reported for a constant written in text equals the one reported for binary, up to the sign of zero -/
 theorem C03_number_text_eq_binary (cd : Codec) (hcd : ∀ x, (cd.rd x).normZero = x.normZero) (x : Dbl) (hx : x.Valid)
     (ot ob : Opts) (ht : ot.binary = false) (hb : ob.binary = true) :
     (numVal cd ot x).normZero = (numVal idCodec ob x).normZero := by
